@@ -266,23 +266,43 @@ static void script_holder(const std::vector<std::string>& t) {
   printf("%s\n", out.c_str());
 }
 
-// S builder <mask> <ops...>   n (new_label) b<li> (bind) s<sid> (section) i (nop) S<order> (CodeHolder::new_section)
+// S builder <mask> <ops...>   n (new_label) b<li> (bind) s<sid> (section) i (nop) l (align) e (embed) E<li> (embed_label)
+//                              c (comment) C<i> (set_cursor to node i mod count) p<li> (embed_const_pool) S<order> (new_section)
 static void script_builder(const std::vector<std::string>& t) {
   CodeHolder code;
   x86::Builder b;
   if (code.init(Environment(Arch::kX64)) != Error::kOk || code.attach(&b) != Error::kOk) { printf("BAD builder setup\n"); return; }
+  Arena pool_arena(4096);
+  ConstPool pool(pool_arena);
+  { uint64_t c = 0x1122334455667788ull; size_t off; (void)pool.add(&c, 8, Out(off)); }
   std::string out = "S builder";
   if (!arm_mask(t[2])) { printf("BAD mask\n"); return; }
   for (size_t i = 3; i < t.size(); i++) {
     const char* s = t[i].c_str();
     size_t arg = size_t(strtoul(s + 1, nullptr, 10));
     int r = 0;
+    Label lab;
+    lab.set_id(uint32_t(arg));
     F.armed = true;
     switch (s[0]) {
       case 'n': { Label l = b.new_label(); r = l.is_valid() ? 0 : 1; break; }
-      case 'b': { Label l; l.set_id(uint32_t(arg)); r = err_code(b.bind(l)); break; }
+      case 'b': r = err_code(b.bind(lab)); break;
       case 's': r = arg < code.section_count() ? err_code(b.section(code.section_by_id(uint32_t(arg)))) : 2; break;
       case 'i': r = err_code(b.nop()); break;
+      case 'l': r = err_code(b.align(AlignMode::kCode, 8)); break;
+      case 'e': { uint8_t d[5] = {1, 2, 3, 4, 5}; r = err_code(b.embed(d, sizeof(d))); break; }
+      case 'E': r = err_code(b.embed_label(lab, 8)); break;
+      case 'c': r = err_code(b.comment("a comment")); break;
+      case 'C': {
+        size_t cnt = 0;
+        for (BaseNode* n = b.first_node(); n; n = n->next()) cnt++;
+        size_t idx = cnt ? arg % cnt : 0;
+        BaseNode* n = b.first_node();
+        for (size_t j = 0; j < idx && n; j++) n = n->next();
+        b.set_cursor(n);
+        break;
+      }
+      case 'p': r = err_code(b.embed_const_pool(lab, pool)); break;
       case 'S': {
         Section* sec = nullptr;
         char nm[24];
@@ -293,18 +313,27 @@ static void script_builder(const std::vector<std::string>& t) {
       default: r = 2; break;
     }
     F.armed = false;
+    size_t cur = 0;
+    for (BaseNode* n = b.first_node(); n && n != b.cursor(); n = n->next()) cur++;
     char buf[96];
-    snprintf(buf, sizeof(buf), " %d/%zu/%zu/%zu/%zu", r, size_t(code.label_count()), size_t(b._label_nodes.size()), size_t(b._section_nodes.size()), size_t(code.section_count()));
+    snprintf(buf, sizeof(buf), " %d/%zu/%zu/%zu/%zu/%zu", r, size_t(code.label_count()), size_t(b._label_nodes.size()), size_t(b._section_nodes.size()),
+             size_t(code.section_count()), cur);
     out += buf;
   }
   long req = F.n_arena;
   disarm();
   out += " |";
   for (BaseNode* n = b.first_node(); n; n = n->next()) {
-    if (n->type() == NodeType::kSection) out += " S" + std::to_string(n->as<SectionNode>()->section_id());
-    else if (n->type() == NodeType::kLabel) out += " L" + std::to_string(n->as<LabelNode>()->label_id());
-    else if (n->type() == NodeType::kInst) out += " I";
-    else out += " ?";
+    switch (n->type()) {
+      case NodeType::kSection: out += " S" + std::to_string(n->as<SectionNode>()->section_id()); break;
+      case NodeType::kLabel: out += " L" + std::to_string(n->as<LabelNode>()->label_id()); break;
+      case NodeType::kInst: out += " I"; break;
+      case NodeType::kAlign: out += " A"; break;
+      case NodeType::kEmbedData: out += " D"; break;
+      case NodeType::kComment: out += " C"; break;
+      case NodeType::kEmbedLabel: out += " E" + std::to_string(n->as<EmbedLabelNode>()->label_id()); break;
+      default: out += " ?"; break;
+    }
   }
   out += " | l";
   for (size_t i = 0; i < b._label_nodes.size(); i++) out += b._label_nodes[i] ? "1" : "0";
@@ -312,6 +341,132 @@ static void script_builder(const std::vector<std::string>& t) {
   for (size_t i = 0; i < b._section_nodes.size(); i++) out += b._section_nodes[i] ? "1" : "0";
   out += " req=" + std::to_string(req);
   printf("%s\n", out.c_str());
+}
+
+// S vm <mask> <ops...>   m<KiB> VirtMem::alloc   d<KiB> VirtMem::alloc_dual_mapping   u<i> release handle i
+//                         j<KiB> JitAllocator::alloc (allocator with kUseDualMapping when the kind is "vmd")   k<i> release span i
+// mask: none | v:<pattern> (VM requests = mmap calls of the script) | h:<pattern> (heap requests = malloc/calloc/realloc)
+static void script_vm(const std::vector<std::string>& t, bool dual_alloc) {
+  struct Handle { int kind; void* p; VirtMem::DualMapping dm; size_t size; bool live; };
+  std::vector<Handle> hs;
+  std::vector<void*> spans;
+  JitAllocator::CreateParams params;
+  params.reset();
+  params.options = dual_alloc ? JitAllocatorOptions::kUseDualMapping : JitAllocatorOptions::kNone;
+  params.block_size = 65536;
+  long h0 = F.live_heap, m0 = F.live_maps, fd0 = count_open_fds();
+  std::string out = dual_alloc ? "S vmd" : "S vm";
+  std::string req_s;
+  {
+    JitAllocator al(&params);
+    long hbase = F.live_heap;
+    F.reset_counters();
+    const std::string& m = t[2];
+    if (m == "none") F.mode = FM_NONE;
+    else if (m.size() > 2 && m[1] == ':' && parse_pattern(m.c_str() + 2)) F.mode = (m[0] == 'v') ? FM_VM : FM_HEAP;
+    else { printf("BAD mask\n"); return; }
+    for (size_t i = 3; i < t.size(); i++) {
+      const char* s = t[i].c_str();
+      size_t arg = size_t(strtoul(s + 1, nullptr, 10));
+      int r = 0;
+      F.armed = true;
+      switch (s[0]) {
+        case 'm': { Handle h{0, nullptr, {}, arg * 1024, false}; r = err_code(VirtMem::alloc(&h.p, h.size, VirtMem::MemoryFlags::kAccessRW)); h.live = (r == 0); hs.push_back(h); break; }
+        case 'd': { Handle h{1, nullptr, {}, arg * 1024, false}; r = err_code(VirtMem::alloc_dual_mapping(Out(h.dm), h.size, VirtMem::MemoryFlags::kAccessRWX)); h.live = (r == 0); hs.push_back(h); break; }
+        case 'u':
+          if (arg < hs.size() && hs[arg].live && hs[arg].kind != 2) {
+            r = err_code(hs[arg].kind ? VirtMem::release_dual_mapping(hs[arg].dm, hs[arg].size) : VirtMem::release(hs[arg].p, hs[arg].size));
+            hs[arg].live = false;
+          }
+          else r = 2;
+          break;
+        case 'b': {   // JitAllocator_new_block of jitallocator.cpp (file-static; that file is #included into this TU)
+          JitAllocatorPrivateImpl* impl = static_cast<JitAllocatorPrivateImpl*>(al._impl);
+          JitAllocatorBlock* blk = nullptr;
+          r = err_code(JitAllocator_new_block(impl, &blk, &impl->pools[0], arg * 1024));
+          Handle h{2, blk, {}, 0, r == 0};
+          hs.push_back(h);
+          break;
+        }
+        case 'x':
+          if (arg < hs.size() && hs[arg].live && hs[arg].kind == 2) {
+            JitAllocatorImpl_deleteBlock(static_cast<JitAllocatorPrivateImpl*>(al._impl), static_cast<JitAllocatorBlock*>(hs[arg].p));
+            hs[arg].live = false;
+          }
+          else r = 2;
+          break;
+        case 'j': { JitAllocator::Span sp; r = err_code(al.alloc(Out(sp), arg * 1024)); spans.push_back(r == 0 ? sp.rx() : nullptr); break; }
+        case 'k':
+          if (arg < spans.size() && spans[arg]) { r = err_code(al.release(spans[arg])); spans[arg] = nullptr; }
+          else r = 2;
+          break;
+        default: r = 2; break;
+      }
+      F.armed = false;
+      char buf[96];
+      snprintf(buf, sizeof(buf), " %d/%ld/%ld", r, F.live_maps - m0, F.live_heap - hbase);
+      out += buf;
+    }
+    req_s = " req=" + std::to_string(F.n_vm) + "," + std::to_string(F.n_heap);
+    F.mode = FM_NONE;
+    for (auto& h : hs) if (h.live) {
+      if (h.kind == 2) JitAllocatorImpl_deleteBlock(static_cast<JitAllocatorPrivateImpl*>(al._impl), static_cast<JitAllocatorBlock*>(h.p));
+      else if (h.kind) (void)VirtMem::release_dual_mapping(h.dm, h.size);
+      else (void)VirtMem::release(h.p, h.size);
+    }
+  }
+  char tail[96];
+  snprintf(tail, sizeof(tail), " | end %ld/%ld/%ld", F.live_maps - m0, F.live_heap - h0, count_open_fds() - fd0);
+  out += tail;
+  out += req_s;
+  printf("%s\n", out.c_str());
+}
+
+// S ra <mask> <ops...>   g<w> BaseRAPass::get_or_create_stack_slot(work reg w)   a<w> BaseRAPass::work_reg_as_mem(work reg w)
+static void script_ra(const std::vector<std::string>& t) {
+  CodeHolder code;
+  x86::Compiler cc;
+  if (code.init(Environment(Arch::kX64)) != Error::kOk || code.attach(&cc) != Error::kOk) { printf("BAD ra setup\n"); return; }
+  constexpr int kRegs = 8;
+  Arena arena(4096);
+  x86::X86RAPass pass(cc);
+  pass._stack_allocator.reset(&arena);
+  std::vector<RAWorkReg*> wr;
+  for (int i = 0; i < kRegs; i++) {
+    x86::Gp g = cc.new_gp32();
+    VirtReg* vr = cc.virt_reg_by_id(g.id());
+    if (!vr) { printf("BAD ra vreg\n"); return; }
+    wr.push_back(new RAWorkReg(vr, g.signature(), RAWorkId(i)));
+  }
+  std::string out = "S ra";
+  if (!arm_mask(t[2])) { printf("BAD mask\n"); return; }
+  for (size_t i = 3; i < t.size(); i++) {
+    const char* s = t[i].c_str();
+    size_t w = size_t(strtoul(s + 1, nullptr, 10)) % kRegs;
+    int r = 0;
+    F.armed = true;
+    if (s[0] == 'g') r = pass.get_or_create_stack_slot(wr[w]) ? 0 : 1;
+    else if (s[0] == 'a') { BaseMem m = pass.work_reg_as_mem(wr[w]); r = m.is_reg_home() ? 0 : 2; }
+    else r = 2;
+    F.armed = false;
+    char buf[64];
+    snprintf(buf, sizeof(buf), " %d/%zu/%zu/", r, size_t(pass._stack_allocator._slots.size()), size_t(pass._stack_allocator._slots.capacity()));
+    out += buf;
+    for (int j = 0; j < kRegs; j++) out += wr[j]->stack_slot() ? "1" : "0";
+  }
+  long req = F.n_arena;
+  disarm();
+  out += " |";
+  // which work register owns slot i (creation order)
+  for (size_t i = 0; i < pass._stack_allocator._slots.size(); i++) {
+    int owner = -1;
+    for (int j = 0; j < kRegs; j++) if (wr[j]->stack_slot() == pass._stack_allocator._slots[i]) owner = j;
+    out += " " + std::to_string(owner);
+  }
+  if (pass._stack_allocator._slots.is_empty()) out += " -";
+  out += " req=" + std::to_string(req);
+  printf("%s\n", out.c_str());
+  for (RAWorkReg* p : wr) delete p;
 }
 
 static void run_script(const std::vector<std::string>& t) {
@@ -327,6 +482,9 @@ static void run_script(const std::vector<std::string>& t) {
   else if (t[1] == "pool") script_pool(t);
   else if (t[1] == "holder") script_holder(t);
   else if (t[1] == "builder") script_builder(t);
+  else if (t[1] == "ra") script_ra(t);
+  else if (t[1] == "vm") script_vm(t, false);
+  else if (t[1] == "vmd") script_vm(t, true);
   else printf("BAD script kind\n");
 }
 
